@@ -653,8 +653,8 @@ def c20_chain(rp):
     m2 = mk_model(name, rp["params"])
     g = mk_game(name, rp["game"])
     h = mk_game(name, rp["game"])
-    r1 = m1.rate(g)
-    r2 = m2.rate(h)
+    r1 = m1.rate(g, **(rp.get("first") or {}))
+    r2 = m2.rate(h, **(rp.get("first") or {}))
     r2 = [[m2.rating(p.mu, p.sigma) for p in t] for t in r2]
     if rp.get("clause") == "canary":
         r2[0][0].sigma = r2[0][0].sigma * 2
@@ -666,9 +666,12 @@ def c20_chain(rp):
 @searcher("c20_chain")
 def c20_chain_search(rp, seed):
     rnd = random.Random(seed)
-    for _ in range(100):
+    for k in range(150):
         r2 = dict(rp, game=rand_game(rnd, [len(x) for x in rp["game"]]))
-        r2["params"] = dict(mu=enc(25.0), sigma=enc(25 / 3), beta=enc(25 / 6), kappa=enc(1e-4), tau=enc(25 / 300))
+        if k % 2:
+            # established players: tau dominates the update, so a limit_sigma clamp binds
+            r2["game"] = [[[enc(rnd.uniform(15, 35)), enc(rnd.choice([0.5, 0.8, 1.2, 25 / 3]))] for _ in t] for t in rp["game"]]
+        r2["params"] = dict(mu=enc(25.0), sigma=enc(25 / 3), beta=enc(25 / 6), kappa=enc(1e-4), tau=enc(rnd.choice([25 / 300, 0.5])))
         try:
             bad, msg = c20_chain(r2)
         except Exception:  # noqa: BLE001
